@@ -309,6 +309,15 @@ def main(argv=None):
     for dlt in (1e-8, 1e-3):
         core.guarded(rep, text, check_text, rep, drv, rng, text, dlt, "generalized_rush_larsen", gpts)
         rep.case(key=(text, dlt), nontrivial=True)
+    # ---- reciprocal powers of a symbol: g = -1/tau**2, -1/sqrt(tau), -1/(tau*tau*tau) is never exactly zero on paper but drops below
+    #      delta and underflows (tau = 1e160): only an exact reciprocal a**-1 of a non-zero *number* may lose the guard
+    text = ("states(m=0.1, n=0.3, h=0.2)\nparameters(tau=2.0, m_inf=0.5)\ndm_dt = (m_inf - m)/(tau*tau)\ndn_dt = (m - n)/sqrt(tau)\n"
+            "dh_dt = (m_inf - h)/(tau*tau*tau)\n")
+    rpts = [{"t": 0.0, "dt": dtv, "states": {"m": 0.1, "n": 0.3, "h": 0.2}, "params": {"tau": tv, "m_inf": 0.5}}
+            for tv in (2.0, 1e3, 1e160, 0.5) for dtv in (0.1, 1.0)]
+    for dlt in (1e-8, 0.5):
+        core.guarded(rep, text, check_text, rep, drv, rng, text, dlt, "generalized_rush_larsen", rpts)
+        rep.case(key=(text, dlt), nontrivial=True)
     # ---- random models
     for i in range(n):
         got = family.new_case(drv, rng, gen, rep, self_dep=0.85)
@@ -330,7 +339,7 @@ def main(argv=None):
     return rep.finish(
         level="proof",
         rule="directed affine models with the own-state coefficient at 0, +-delta(1 -+ 2^-10), delta, 1e-9, 0.5, -3 for each delta, both "
-             "scheme names; the underflow witness; random models whose rates depend on their own state (85%), functions incl. abs/"
+             "scheme names; the underflow witness; gating-variable and reciprocal-power shapes (exp(-V*V), 1/(1+exp(V)), 1/tau**2, 1/sqrt(tau)) below delta and at underflow; random models whose rates depend on their own state (85%), functions incl. abs/"
              "floor/Mod, delta in {1e-8, 0, 1e-3, 0.5, 10}; 4 random points + points with a state at 0; non-trivial = some slot is "
              "not an Euler slot",
         trusted_base=["Coq 8.16.1 kernel", "Coquelicot + the standard library's real numbers for the theorems over R",
